@@ -35,6 +35,14 @@ class Writer:
 
     async def drain(self):
         self.rec.ops.append("drain")
+        n = self.rec.ops.count("drain") - 1
+        f = getattr(self.rec, "faults", None) or {}
+        if f.get("drain_raise") == n:
+            raise ConnectionResetError("peer reset the socket")
+        if f.get("disconnect_at_drain") == n:
+            # what another task of the same connection (reader / watchdog) does while this one is suspended in drain()
+            await self.rec.disconnect(ConnectionState(f.get("state", 3)))
+            self.rec.resumed_at = [len(self.rec.EV), len(self.rec.W)]
 
     def close(self):
         self.rec.closed += 1
@@ -177,6 +185,8 @@ def post_view(c):
 
 def run(case):
     c = build_conn(case["pre"])
+    c.faults = case.get("faults")
+    c.resumed_at = None
     msg = build_msg(case.get("msg"))
     op = case["op"]
     times = list(case.get("times") or [])
@@ -192,6 +202,10 @@ def run(case):
             return await c.send_msg(msg)
         if op == "process_message":
             return await c._process_message(msg, raw_of(case["msg"]))
+        if op == "process_message_twice":
+            await c._process_message(msg, raw_of(case["msg"]))
+            out["mid"] = post_view(c)
+            return await c._process_message(build_msg(case["msg2"]), raw_of(case["msg2"]))
         if op == "disconnect":
             return await c.disconnect(ConnectionState(case["args"]["state"]), case["args"].get("logout_message"))
         if op == "send_test_req":
@@ -221,4 +235,5 @@ def run(case):
         out["outcome"] = "raise:" + type(e).__name__
         out["exc_mro"] = [k.__name__ for k in type(e).__mro__]
     out["post"] = post_view(c)
+    out["post"]["resumed_at"] = c.resumed_at
     return out
